@@ -59,7 +59,7 @@ func (g *gateEngine) Seal(chain consensus.ChainReader, block *types.Block, stop 
 // not depend on the times read. A miner that produces nothing within the
 // budget makes the case inconclusive (counted), not a violation.
 func TestMinerBlocksImport(t *testing.T) {
-	ev.MustHit("miner-block-imported", "miner-block-with-txs", "tx-arrived-while-sealing")
+	ev.MustHit("miner-block-imported", "miner-block-with-txs", "tx-arrived-while-sealing", "pool-holds-tx-that-fails-at-execution")
 	ev.Check(t, ev.N(3, 48), func(t *rapid.T) {
 		nc := rapid.SampledFrom([]gen.NamedConfig{gen.ConfigByName("all-at-0"), gen.ConfigByName("test-hf1-7"), gen.ConfigByName("testnet2-like"), gen.ConfigByName("steep")}).Draw(t, "config")
 		g := gen.Genesis(nc.Config, 0)
@@ -94,6 +94,24 @@ func TestMinerBlocksImport(t *testing.T) {
 			added := 0
 			for i, k := range gen.Keys[:3] {
 				if rapid.IntRange(0, 2).Draw(t, "skipkey") == 0 {
+					continue
+				}
+				if rapid.IntRange(0, 3).Draw(t, "overspend") == 0 {
+					// two transfers that are each affordable at the head but not one after the other: the pool
+					// takes both, the block builder must leave the second out without keeping any of its effects
+					bal, n := st.GetBalance(k.Addr), st.GetNonce(k.Addr)
+					v := new(big.Int).Div(new(big.Int).Mul(bal, big.NewInt(6)), big.NewInt(10))
+					to := gen.Keys[7].Addr
+					ok := 0
+					for j := uint64(0); j < 2; j++ {
+						if pool.AddLocal(gen.SignedTx(nc.Config, next, k, n+j, &to, v, 21000, big.NewInt(2), nil)) == nil {
+							ok++
+						}
+					}
+					if ok == 2 {
+						ev.Label("pool-holds-tx-that-fails-at-execution")
+					}
+					added += ok
 					continue
 				}
 				tx, _ := gen.DrawTx(t, gen.TxCtx{Config: nc.Config, Num: next, State: st, GasLeft: 1_000_000, Keys: gen.Keys[i : i+1],
@@ -151,7 +169,7 @@ func TestMinerBlocksImport(t *testing.T) {
 				if rapid.IntRange(0, 2).Draw(t, "lateTxs") > 0 {
 					if n := addTxs(); n > 0 {
 						added += n
-						ev.Label("tx-arrived-while-sealing")
+						ev.Label("tx-arrived-while-sealing", "pool-holds-tx-that-fails-at-execution")
 						time.Sleep(5 * time.Millisecond) // let the worker see the pool event before the seal returns
 					}
 				}
